@@ -163,7 +163,268 @@ def gen_de(lines):
         lines.append("def %s : List UInt8 := %s" % (key, lean_bytes(lit.encode() if ok else b"")))
 
 
-GENERATORS = [("Pointer", gen_pointer), ("Error", gen_error), ("De", gen_de)]
+def strip_rust_comments(t):
+    """drop // comments (the crate has no `//` inside the literals we look at) and /* */ blocks"""
+    t = re.sub(r"/\*.*?\*/", "", t, flags=re.S)
+    return re.sub(r"//[^\n]*", "", t)
+
+
+def byte_lit(tok):
+    """value of a Rust u8 expression that is a literal: b'x', b'\\n', 0x20, 32, 0"""
+    tok = tok.strip()
+    m = re.fullmatch(r"b'((?:[^'\\]|\\.|\\x[0-9a-fA-F]{2})+)'", tok)
+    if m: return rust_str_bytes(m.group(1))[0]
+    m = re.fullmatch(r"(0x[0-9a-fA-F_]+|[0-9_]+)(?:u8|usize|i16|i32)?", tok)
+    if m: return int(m.group(1).replace("_", ""), 0)
+    raise ValueError("not a byte literal: %r" % tok)
+
+
+# ------------------------------------------------------------------ ser.rs string escaping (C05, C03, C13)
+def gen_escape(lines):
+    t = src("ser.rs")
+    tc = strip_rust_comments(t)
+    # --- symbol constants `const BB: u8 = b'b';`
+    syms = {}
+    for m in re.finditer(r"^const\s+(\w+)\s*:\s*u8\s*=\s*([^;]+);", tc, re.M):
+        try: syms[m.group(1)] = byte_lit(m.group(2))
+        except ValueError: pass
+    # --- the table
+    m = re.search(r"static\s+ESCAPE\s*:\s*\[\s*u8\s*;\s*(\d+)\s*\]\s*=\s*\[(.*?)\];", tc, re.S)
+    table = []
+    if not m:
+        miss("escape.table", "static ESCAPE: [u8; N] = [...] not found")
+    else:
+        toks = [x.strip() for x in m.group(2).split(",") if x.strip()]
+        for x in toks:
+            if x in syms: table.append(syms[x])
+            else:
+                try: table.append(byte_lit(x))
+                except ValueError:
+                    miss("escape.table", "entry %r is neither a known symbol nor a literal" % x); table.append(0)
+        if len(table) != int(m.group(1)):
+            miss("escape.table", "declared length %s but %d entries" % (m.group(1), len(table)))
+    used = [k for k in syms if m and re.search(r"\b%s\b" % re.escape(k), m.group(2))]
+    lines.append("/-! ## `src/ser.rs`: string escaping -/")
+    lines.append("/-- the table symbols as defined by `const XX: u8 = …;` (those that occur in `ESCAPE`) -/")
+    lines.append("def escapeSymbols : List (String × UInt8) := [%s]" % ", ".join('("%s", 0x%02x)' % (k, syms[k]) for k in used))
+    lines.append("/-- `static ESCAPE: [u8; 256]`, entry `i` = the symbol's byte value for input byte `i` -/")
+    lines.append("def escapeTable : List UInt8 := [")
+    for r in range(0, len(table), 16):
+        lines.append("  " + ", ".join("0x%02x" % x for x in table[r:r + 16]) + ("," if r + 16 < len(table) else ""))
+    lines.append("]")
+    # --- enum CharEscape
+    em = re.search(r"pub\s+enum\s+CharEscape\s*\{(.*?)\n\}", tc, re.S)
+    variants = []
+    if not em: miss("escape.enum", "pub enum CharEscape not found")
+    else:
+        for vm in re.finditer(r"^\s*(\w+)\s*(\(\s*u8\s*\))?\s*,", em.group(1), re.M):
+            variants.append((vm.group(1), bool(vm.group(2))))
+    lines.append("/-- `pub enum CharEscape`, variants in source order -/")
+    lines.append("inductive CharEscape where")
+    for v, pay in variants:
+        lines.append("  | %s%s" % (v, " (byte : UInt8)" if pay else ""))
+    if not variants: lines.append("  | missing")
+    lines.append("deriving DecidableEq, Repr")
+    vset = dict(variants)
+    # --- from_escape_table arms
+    body = fn_body(tc, r"fn from_escape_table\b[^{]*\{")
+    arms = []
+    wildcard = None
+    if body is None: miss("escape.from_escape_table", "function not found")
+    else:
+        for am in re.finditer(r"(?:self::)?(\w+)\s*=>\s*CharEscape::(\w+)\s*(\(\s*byte\s*\))?\s*,", body):
+            sym, var, pay = am.group(1), am.group(2), bool(am.group(3))
+            if sym not in syms or var not in vset or vset[var] != pay:
+                miss("escape.from_escape_table", "arm %s => %s not understood" % (sym, var)); continue
+            arms.append((syms[sym], var, pay))
+        wm = re.search(r"_\s*=>\s*(\w+!?)", body)
+        wildcard = wm.group(1) if wm else None
+        if wildcard != "unreachable!": miss("escape.from_escape_table", "wildcard arm is not unreachable!()")
+        if not arms: miss("escape.from_escape_table", "no arms found")
+    lines.append("/-- `CharEscape::from_escape_table(escape, byte)`: match arms in source order (symbol value, result);")
+    lines.append("    the wildcard arm is `unreachable!()` -/")
+    lines.append("def fromEscapeTableArms : List (UInt8 × (UInt8 → CharEscape)) := [%s]" % ", ".join(
+        "(0x%02x, fun %s => .%s%s)" % (s_, "byte" if pay else "_", v, " byte" if pay else "") for s_, v, pay in arms))
+    # --- write_char_escape
+    body = fn_body(tc, r"fn write_char_escape\b[^{]*\{")
+    fixed = {}
+    prefix, hi_shift, lo_mask, hexd = [], None, None, []
+    if body is None: miss("escape.write_char_escape", "function not found")
+    else:
+        for am in re.finditer(r"(\w+)\s*=>\s*b\"((?:[^\"\\]|\\.)*)\"\s*,", body):
+            if am.group(1) in vset: fixed[am.group(1)] = rust_str_bytes(am.group(2))
+        hm = re.search(r"static\s+HEX_DIGITS\s*:\s*\[\s*u8\s*;\s*16\s*\]\s*=\s*\*b\"((?:[^\"\\]|\\.)*)\"\s*;", body)
+        if not hm: miss("escape.hex_digits", "static HEX_DIGITS: [u8; 16] = *b\"…\" not found")
+        else: hexd = list(rust_str_bytes(hm.group(1)))
+        bm = re.search(r"AsciiControl\s*\(\s*byte\s*\)\s*=>\s*\{.*?let\s+bytes\s*=\s*&\[(.*?)\]\s*;\s*return\s+writer\.write_all\(bytes\)", body, re.S)
+        if not bm: miss("escape.ascii_control", "AsciiControl(byte) arm `let bytes = &[…]; return writer.write_all(bytes)` not found")
+        else:
+            elems = [x.strip() for x in bm.group(1).split(",") if x.strip()]
+            tail = elems[-2:]
+            try: prefix = [byte_lit(x) for x in elems[:-2]]
+            except ValueError: miss("escape.ascii_control", "prefix elements are not byte literals: %r" % (elems[:-2],))
+            h1 = re.fullmatch(r"HEX_DIGITS\[\(byte\s*>>\s*(\d+)\)\s*as\s+usize\]", tail[0]) if len(tail) == 2 else None
+            h2 = re.fullmatch(r"HEX_DIGITS\[\(byte\s*&\s*(0x[0-9a-fA-F]+|\d+)\)\s*as\s+usize\]", tail[1]) if len(tail) == 2 else None
+            if not h1 or not h2: miss("escape.ascii_control", "last two elements are not HEX_DIGITS[(byte >> s)] , HEX_DIGITS[(byte & m)]")
+            else: hi_shift, lo_mask = int(h1.group(1)), int(h2.group(1), 0)
+        for v, pay in variants:
+            if not pay and v not in fixed: miss("escape.write_char_escape", "no byte string for variant %s" % v)
+    lines.append("/-- `Formatter::write_char_escape`: the byte string written for each payload-free variant -/")
+    lines.append("def writeCharEscapeFixed : CharEscape → Option (List UInt8)")
+    for v, pay in variants:
+        if pay: lines.append("  | .%s _ => none" % v)
+        else: lines.append("  | .%s => some %s" % (v, lean_bytes(fixed.get(v, b""))))
+    if not variants: lines.append("  | .missing => none")
+    lines.append("/-- `AsciiControl(byte)`: `[prefix…, HEX_DIGITS[byte >> hiShift], HEX_DIGITS[byte & loMask]]` -/")
+    lines.append("def asciiControlPrefix : List UInt8 := %s" % lean_bytes(prefix))
+    lines.append("def asciiControlHiShift : Nat := %d" % (hi_shift if hi_shift is not None else 0))
+    lines.append("def asciiControlLoMask : UInt8 := 0x%02x" % (lo_mask if lo_mask is not None else 0))
+    lines.append("def hexDigits : List UInt8 := %s" % lean_bytes(hexd))
+    for fn, nm in (("begin_string", "beginString"), ("end_string", "endString")):
+        b = fn_body(tc, r"fn %s\b[^{]*\{" % fn)
+        wm = re.search(r"writer\.write_all\(\s*b\"((?:[^\"\\]|\\.)*)\"\s*\)", b or "")
+        if not wm: miss("escape." + fn, "writer.write_all(b\"…\") not found")
+        lines.append("/-- `Formatter::%s` -/" % fn)
+        lines.append("def %s : List UInt8 := %s" % (nm, lean_bytes(rust_str_bytes(wm.group(1)) if wm else b"")))
+    # the loop of format_escaped_str_contents is transcribed by hand (SJ/Model/Escape.lean); the constants it uses:
+    body = fn_body(tc, r"fn format_escaped_str_contents\b[^{]*\{")
+    zm = re.search(r"if\s+escape\s*==\s*(\d+)\s*\{\s*continue;", body or "")
+    if not zm: miss("escape.contents", "`if escape == 0 { continue; }` not found")
+    lines.append("/-- `if escape == 0 { continue; }` in `format_escaped_str_contents` -/")
+    lines.append("def escapeNone : UInt8 := %d" % (int(zm.group(1)) if zm else 0))
+
+
+# ------------------------------------------------------------------ read.rs hex decoding (C05)
+def gen_hex(lines):
+    t = strip_rust_comments(src("read.rs"))
+    lines.append("/-! ## `src/read.rs`: `decode_four_hex_digits`, `HEX0`, `HEX1` -/")
+    body = fn_body(t, r"const fn decode_hex_val_slow\b[^{]*\{")
+    ranges = []
+    if body is None: miss("hex.decode_hex_val_slow", "function not found")
+    else:
+        for am in re.finditer(r"(b'[^']+')\s*\.\.=\s*(b'[^']+')\s*=>\s*Some\(\s*val\s*-\s*(b'[^']+')\s*(?:\+\s*(\d+))?\s*\)\s*,", body):
+            ranges.append((byte_lit(am.group(1)), byte_lit(am.group(2)), byte_lit(am.group(3)), int(am.group(4) or 0)))
+        n_arms = len(re.findall(r"=>", body))
+        if not re.search(r"_\s*=>\s*None", body) or n_arms != len(ranges) + 1 or not ranges:
+            miss("hex.decode_hex_val_slow", "arms are not `lo..=hi => Some(val - base [+ k])` … `_ => None`")
+    lines.append("/-- `decode_hex_val_slow`: arms `lo..=hi => Some(val - base + add)` in source order as (lo, hi, base, add); `_ => None` -/")
+    lines.append("def hexRanges : List (UInt8 × UInt8 × UInt8 × Nat) := [%s]" % ", ".join("(0x%02x, 0x%02x, 0x%02x, %d)" % r for r in ranges))
+    body = fn_body(t, r"const fn build_hex_table\b[^{]*\{")
+    sm = re.search(r"Some\(val\)\s*=>\s*\(val\s+as\s+i16\)\s*<<\s*shift\s*,\s*None\s*=>\s*(-?\d+)\s*,", body or "")
+    zm = re.search(r"let\s+mut\s+table\s*=\s*\[\s*0\s*;\s*(\d+)\s*\]", body or "")
+    wm = re.search(r"while\s+ch\s*<\s*(\d+)", body or "")
+    if not sm or not zm or not wm or zm.group(1) != wm.group(1):
+        miss("hex.build_hex_table", "`Some(val) => (val as i16) << shift, None => K` / `[0; N]` / `while ch < N` not found")
+    sentinel = int(sm.group(1)) if sm else 0
+    size = int(zm.group(1)) if zm else 0
+    shifts = {}
+    for nm in ("HEX0", "HEX1"):
+        hm = re.search(r"static\s+%s\s*:\s*\[\s*i16\s*;\s*(\d+)\s*\]\s*=\s*build_hex_table\(\s*(\d+)\s*\)\s*;" % nm, t)
+        if not hm or int(hm.group(1)) != size: miss("hex." + nm, "static %s: [i16; N] = build_hex_table(k) not found" % nm)
+        shifts[nm] = int(hm.group(2)) if hm else 0
+    lines.append("/-- `build_hex_table`: table size, the `None` sentinel, and the shift arguments of `HEX0` / `HEX1` -/")
+    lines.append("def hexTableSize : Nat := %d" % size)
+    lines.append("def hexSentinel : Int := %s" % (("(%d)" % sentinel) if sentinel < 0 else str(sentinel)))
+    lines.append("def hexShift0 : Nat := %d" % shifts["HEX0"])
+    lines.append("def hexShift1 : Nat := %d" % shifts["HEX1"])
+
+    def table(shift):
+        out = []
+        for ch in range(size):
+            v = None
+            for lo, hi, base, add in ranges:
+                if lo <= ch <= hi: v = ch - base + add; break
+            x = sentinel if v is None else (v << shift)
+            x = ((x + 0x8000) & 0xFFFF) - 0x8000      # i16
+            out.append(x)
+        return out
+    for nm, ln in (("HEX0", "hex0"), ("HEX1", "hex1")):
+        tb = table(shifts[nm])
+        lines.append("/-- `static %s` as computed by the translator from the pieces above (re-derived in Lean: `Proofs.Hex.hex_tables_built`) -/" % nm)
+        lines.append("def %s : List Int := [" % ln)
+        for r in range(0, len(tb), 16):
+            lines.append("  " + ", ".join(("(%d)" % x) if x < 0 else str(x) for x in tb[r:r + 16]) + ("," if r + 16 < len(tb) else ""))
+        lines.append("]")
+    body = fn_body(t, r"fn decode_four_hex_digits\b[^{]*\{")
+    use = []
+    for v in "abcd":
+        um = re.search(r"let\s+%s\s*=\s*HEX([01])\[\s*%s\s+as\s+usize\s*\]\s*as\s+i32\s*;" % (v, v), body or "")
+        if not um: miss("hex.decode_four_hex_digits", "`let %s = HEXk[%s as usize] as i32;` not found" % (v, v))
+        use.append(int(um.group(1)) if um else 0)
+    cm = re.search(r"let\s+codepoint\s*=\s*\(\(a\s*\|\s*b\)\s*<<\s*(\d+)\)\s*\|\s*c\s*\|\s*d\s*;", body or "")
+    gm = re.search(r"if\s+codepoint\s*>=\s*0\s*\{\s*Some\(codepoint\s+as\s+u16\)\s*\}\s*else\s*\{\s*None\s*\}", body or "")
+    if not cm or not gm: miss("hex.decode_four_hex_digits", "`((a | b) << k) | c | d` / `if codepoint >= 0 { Some(codepoint as u16) } else { None }` not found")
+    lines.append("/-- `decode_four_hex_digits`: which table each argument is looked up in, and the `<< k` of `((a | b) << k) | c | d` -/")
+    lines.append("def hexArgTables : List Nat := [%s]" % ", ".join(str(x) for x in use))
+    lines.append("def hexHighShift : Nat := %d" % (int(cm.group(1)) if cm else 0))
+
+
+# ------------------------------------------------------------------ read.rs SWAR scanner (C05, C14)
+def gen_swar(lines):
+    t = strip_rust_comments(src("read.rs"))
+    lines.append("/-! ## `src/read.rs`: `is_escape`, `SliceRead::skip_to_escape`, `skip_to_escape_slow` -/")
+    body = fn_body(t, r"fn is_escape\b[^{]*\{")
+    m = re.search(r"ch\s*==\s*(b'[^']+')\s*\|\|\s*ch\s*==\s*(b'(?:\\.|[^'])+')\s*\|\|\s*\(\s*including_control_characters\s*&&\s*ch\s*<\s*(\w+)\s*\)", body or "")
+    if not m: miss("swar.is_escape", "`ch == b'\"' || ch == b'\\\\' || (including_control_characters && ch < 0x20)` not found")
+    q, b, c = (byte_lit(m.group(1)), byte_lit(m.group(2)), byte_lit(m.group(3))) if m else (0, 0, 0)
+    lines.append("/-- `is_escape(ch, incl)`: `ch == A || ch == B || (incl && ch < C)` -/")
+    lines.append("def isEscapeA : UInt8 := 0x%02x" % q)
+    lines.append("def isEscapeB : UInt8 := 0x%02x" % b)
+    lines.append("def isEscapeCtrlBound : UInt8 := 0x%02x" % c)
+    body = fn_body(t, r"fn skip_to_escape\b[^{]*\{") or ""
+    if not body: miss("swar.skip_to_escape", "function not found")
+    mm = re.search(r"memchr::memchr2\(\s*(b'(?:\\.|[^'])+')\s*,\s*(b'(?:\\.|[^'])+')\s*,\s*rest\s*\)\s*\.unwrap_or\(\s*rest\.len\(\)\s*\)", body)
+    if not mm: miss("swar.memchr2", "memchr::memchr2(b'\"', b'\\\\', rest).unwrap_or(rest.len()) not found")
+    lines.append("/-- the needles of `memchr::memchr2(A, B, rest)` (branch `!forbid_control_characters`) -/")
+    lines.append("def memchr2A : UInt8 := 0x%02x" % (byte_lit(mm.group(1)) if mm else 0))
+    lines.append("def memchr2B : UInt8 := 0x%02x" % (byte_lit(mm.group(2)) if mm else 0))
+    cm = re.search(r'#\[cfg\(fast_arithmetic\s*=\s*"64"\)\]\s*type\s+Chunk\s*=\s*u(\d+)\s*;', body)
+    if not cm: miss("swar.chunk", '#[cfg(fast_arithmetic = "64")] type Chunk = uN not found')
+    bits = int(cm.group(1)) if cm else 0
+    st = re.search(r"const\s+STEP\s*:\s*usize\s*=\s*mem::size_of::<Chunk>\(\)\s*;", body)
+    ob = re.search(r"const\s+ONE_BYTES\s*:\s*Chunk\s*=\s*Chunk::MAX\s*/\s*(\d+)\s*;", body)
+    if not st: miss("swar.step", "const STEP: usize = mem::size_of::<Chunk>() not found")
+    if not ob: miss("swar.one_bytes", "const ONE_BYTES: Chunk = Chunk::MAX / 255 not found")
+    lines.append("/-- `type Chunk = u64` (fast_arithmetic = \"64\"), `STEP = size_of::<Chunk>()`, `ONE_BYTES = Chunk::MAX / d` -/")
+    lines.append("def swarChunkBits : Nat := %d" % bits)
+    lines.append("def swarStep : Nat := %d" % (bits // 8))
+    lines.append("def swarOneBytesDiv : Nat := %d" % (int(ob.group(1)) if ob else 1))
+    if not re.search(r"for\s+chunk\s+in\s+rest\.chunks_exact\(\s*STEP\s*\)", body): miss("swar.loop", "for chunk in rest.chunks_exact(STEP) not found")
+    if not re.search(r"Chunk::from_le_bytes\(", body): miss("swar.loop", "Chunk::from_le_bytes not found")
+    e1 = re.search(r"let\s+contains_ctrl\s*=\s*chars\.wrapping_sub\(\s*ONE_BYTES\s*\*\s*(\w+)\s*\)\s*&\s*!chars\s*;", body)
+    e2 = re.search(r"let\s+chars_quote\s*=\s*chars\s*\^\s*\(\s*ONE_BYTES\s*\*\s*Chunk::from\(\s*(b'(?:\\.|[^'])+')\s*\)\s*\)\s*;", body)
+    e3 = re.search(r"let\s+contains_quote\s*=\s*chars_quote\.wrapping_sub\(\s*ONE_BYTES\s*\)\s*&\s*!chars_quote\s*;", body)
+    e4 = re.search(r"let\s+chars_backslash\s*=\s*chars\s*\^\s*\(\s*ONE_BYTES\s*\*\s*Chunk::from\(\s*(b'(?:\\.|[^'])+')\s*\)\s*\)\s*;", body)
+    e5 = re.search(r"let\s+contains_backslash\s*=\s*chars_backslash\.wrapping_sub\(\s*ONE_BYTES\s*\)\s*&\s*!chars_backslash\s*;", body)
+    e6 = re.search(r"let\s+masked\s*=\s*\(\s*contains_ctrl\s*\|\s*contains_quote\s*\|\s*contains_backslash\s*\)\s*&\s*\(\s*ONE_BYTES\s*<<\s*(\d+)\s*\)\s*;", body)
+    e7 = re.search(r"masked\.trailing_zeros\(\)\s*as\s+usize\s*/\s*(\d+)", body)
+    e8 = re.search(r"self\.index\s*\+=\s*rest\.len\(\)\s*/\s*STEP\s*\*\s*STEP\s*;\s*self\.skip_to_escape_slow\(\)\s*;", body)
+    for nm, e in (("contains_ctrl", e1), ("chars_quote", e2), ("contains_quote", e3), ("chars_backslash", e4),
+                  ("contains_backslash", e5), ("masked", e6), ("trailing_zeros", e7), ("tail", e8)):
+        if not e: miss("swar." + nm, "expression of `%s` in skip_to_escape has changed shape" % nm)
+    lines.append("/-- constants of the chunk test: `ONE_BYTES * ctrl`, `Chunk::from(quote)`, `Chunk::from(backslash)`,")
+    lines.append("    `ONE_BYTES << highShift`, `trailing_zeros() / tzDiv` -/")
+    lines.append("def swarCtrl : Nat := 0x%02x" % (byte_lit(e1.group(1)) if e1 else 0))
+    lines.append("def swarQuote : UInt8 := 0x%02x" % (byte_lit(e2.group(1)) if e2 else 0))
+    lines.append("def swarBackslash : UInt8 := 0x%02x" % (byte_lit(e4.group(1)) if e4 else 0))
+    lines.append("def swarHighShift : Nat := %d" % (int(e6.group(1)) if e6 else 0))
+    lines.append("def swarTzDiv : Nat := %d" % (int(e7.group(1)) if e7 else 1))
+    body = fn_body(t, r"fn skip_to_escape_slow\b[^{]*\{") or ""
+    sm = re.search(r"while\s+self\.index\s*<\s*self\.slice\.len\(\)\s*&&\s*!is_escape\(\s*self\.slice\[self\.index\]\s*,\s*(true|false)\s*\)\s*\{\s*self\.index\s*\+=\s*(\d+)\s*;", body)
+    if not sm: miss("swar.slow", "`while self.index < self.slice.len() && !is_escape(self.slice[self.index], true) { self.index += 1; }` not found")
+    lines.append("/-- `skip_to_escape_slow`: second argument of `is_escape` and the increment -/")
+    lines.append("def slowInclCtrl : Bool := %s" % (sm.group(1) if sm else "false"))
+    lines.append("def slowStep : Nat := %d" % (int(sm.group(2)) if sm else 0))
+
+
+# one line per generator (keeps merges between branches trivial)
+GENERATORS = []
+GENERATORS.append(("Pointer", gen_pointer))
+GENERATORS.append(("Error", gen_error))
+GENERATORS.append(("De", gen_de))
+GENERATORS.append(("Escape", gen_escape))
+GENERATORS.append(("Hex", gen_hex))
+GENERATORS.append(("Swar", gen_swar))
 
 
 def main():
